@@ -287,7 +287,14 @@ def draw_params(rel, bases, rng):
                 return dict(c=str(c))
         return None
     if rel == "pos_scale":
-        s = rng.choice([Fr(2), Fr(1, 2), Fr(4)]) if exactfloat else rng.choice([Fr(2), Fr(1, 3), Fr(3, 2), Fr(5), Fr(2, 7)])
+        if exactfloat:
+            # powers of two are exact in binary64; the tiny ones keep every entry and every energy difference far
+            # above the library's default atol=1e-12 (smallest non-zero entry 2**-36, smallest difference 2**-34)
+            # but below numpy's default tolerances, the huge ones far above
+            extreme = [Fr(1, 2 ** 20), Fr(1, 2 ** 27), Fr(1, 2 ** 30), Fr(1, 2 ** 30), Fr(1, 2 ** 34), Fr(1, 2 ** 34), Fr(2 ** 20), Fr(2 ** 30)]
+            s = rng.choice(extreme) if rng.random() < 0.7 else rng.choice([Fr(2), Fr(1, 2), Fr(4)])
+        else:
+            s = rng.choice([Fr(2), Fr(1, 3), Fr(3, 2), Fr(5), Fr(2, 7), Fr(1, 2 ** 30), Fr(2 ** 20)])
         return dict(s=str(s))
     if rel == "direct_sum":
         a, b = bases
@@ -850,6 +857,30 @@ def _worker(args):
         return dict(rel=rel, bases=None, params=None, keyfmt=None,
                     fails=[dict(what="oracle crashed: " + traceback.format_exc()[-1500:], input=dict(seed=seed, relation=rel, kw=kw), prop="crash", crash=True)],
                     info=dict(nontrivial=False, raised=False), dt=time.time() - t, skipped=False)
+
+
+def corpus(ctx):
+    """Fixed inputs that once exposed a genuine defect; run on every check.
+
+    D26 (fixed in /repo, e4d96a1): H_0 = s * diag(0, 1), H_1 = s * [[0,1],[1,0]], subspace_indices=[0, 1] was
+    rejected ("The subspaces must not share eigenvalues") for s = 2**-27, 2**-34 because the inter-block
+    comparison used numpy's default absolute tolerance instead of the solver's atol."""
+    one, zero = ["1", "0"], ["0", "0"]
+    failures = []
+    n = 0
+    samples = []
+    for fmt in ("dense", "sparse"):
+        for herm in (True, False):
+            base = dict(sub=[0, 1], nparam=1, N=3, hermitian=herm, fully=None, fmt=fmt,
+                        H={"0": [[zero, zero], [zero, one]], "1": [[zero, one], [one, zero]]})
+            for s_ in ("1/134217728", "1/17179869184", "1/1073741824", "1073741824"):
+                for kf in ("list", "tuple"):
+                    fails, info = check_relation("pos_scale", [base], dict(s=s_), kf, kf)
+                    failures += fails
+                    n += 1
+            samples.append(dict(relation="pos_scale", fmt=fmt, hermitian=herm, sub=[0, 1], H0="diag(0,1)", s=["2**-27", "2**-34", "2**-30", "2**30"]))
+    return dict(evaluations=n, nontrivial=n, rule="fixed corpus: positive scaling by 2**-27, 2**-34, 2**-30, 2**30 of H_0 = diag(0,1), H_1 = sigma_x with two blocks (defect D26), dense and sparse, both modes, list and dict input",
+                samples=samples[:2], failures=failures, distribution={"corpus/D26": n})
 
 
 def sweep(ctx, relations, per_relation, kw, parallel=None):
